@@ -40,12 +40,14 @@ mod hashbrown;
 const LEN_GUARD: i64 = 10_000;
 const CAP_GUARD: i64 = 10_000;
 
+// A length or capacity read from uninitialized memory may also have its top bit set
+// (negative as `i64`): it must not turn into a huge unsigned size.
 fn guard_len(len: i64) -> i64 {
-    if len > LEN_GUARD { LEN_GUARD } else { len }
+    len.clamp(0, LEN_GUARD)
 }
 
 fn guard_cap(cap: i64) -> i64 {
-    if cap > CAP_GUARD { CAP_GUARD } else { cap }
+    cap.clamp(0, CAP_GUARD)
 }
 
 #[derive(Clone, PartialEq)]
